@@ -1,0 +1,16 @@
+// This Source Code Form is subject to the terms of the Mozilla Public
+// License, v. 2.0. If a copy of the MPL was not distributed with this
+// file, You can obtain one at http://mozilla.org/MPL/2.0/.
+
+//go:build !verif
+
+package queue
+
+import "time"
+
+// verifQ is the per-queue state of the trace hooks (empty unless built with -tags verif).
+type verifQ struct{}
+
+func (queue *Queue[K, V]) verifStart() {}
+
+func (queue *Queue[K, V]) verifEvent(string, K, V, time.Time) {}
